@@ -1118,6 +1118,38 @@ class Runner:
                     self.ctx.violation("%s:v2.%d:%s" % (name, version, "zero-tail" if version == 3 else "roundtrip"),
                                        "bytes after a text field that are all NUL are lost on reload: %s" % (diffs[:2],), case)
 
+    def nested_unsynch_case(self):
+        """v2.4 tag with the tag-level unsynchronisation flag and an unsynchronised CHAP/CTOC frame whose
+        sub-frame contains FF 00 in its plain form (and no false sync, so that a second un-unsynchronisation
+        of the sub-frame succeeds and removes the 00): checked explicitly so that the class is exercised
+        in every run"""
+        F = self.Frames
+        for fr in (F["CHAP"](element_id="c", start_time=0, end_time=1, start_offset=2, end_offset=3,
+                             sub_frames=[F["PRIV"](owner="o", data=b"\xff\x00\x01")]),
+                   F["CTOC"](element_id="t", flags=3, child_element_ids=["c"],
+                             sub_frames=[F["PRIV"](owner="o", data=b"\xff\x00\x01")])):
+            name = type(fr).__name__
+            data = self.save([fr], 4, pad0=True)
+            major, frames = parse_tag(data)
+            body = frames[0][2]
+            st0, plain = self.load_one(data)
+            data3 = self.save([fr], 3, None, pad0=True)
+            body3 = parse_tag(data3)[1][0][2]
+            st3, plain3 = self.load_one(data3)
+            fr3 = frame23(name.encode(), body3)
+            for label, tag in (("unsynchronised-input", tag24(frame24(name.encode(), ref_unsynch(body), 0x0002))),
+                               ("tag+frame-unsynchronised-input", tag24(frame24(name.encode(), ref_unsynch(body), 0x0002), 0x80)),
+                               ("v2.3-tag-unsynchronised-input", tag23(ref_unsynch(fr3), 0x80))):
+                st, got = self.load_one(tag)
+                if label.startswith("v2.3"):
+                    st0, plain = st3, plain3
+                self.ctx.case(key=(name, "nested-unsynch", label), nontrivial=True)
+                case = {"frame": name, "repr": repr(fr), "framing": label, "tag": hx(tag)}
+                diffs = self.oracle.frame_diff(plain, got, exact=True) if (st == "ok" and st0 == "ok") else [("*", (st0, st))]
+                self.ctx.hist["nested-unsynch:%s:%s" % (label, "equal" if not diffs else "differs")] += 1
+                if diffs:
+                    self.ctx.violation("%s:%s" % (name, label), "re-framed input decodes to other values than the plain frame: %s" % (diffs[:2],), case)
+
     def mixed_tag(self, n):
         """several frames in one tag (sorting, HashKeys, determine_bpi on real mixtures)"""
         ctx = self.ctx
@@ -1154,14 +1186,16 @@ class Runner:
                     for fr in frames:
                         if self.zero_tail(fr, None, version):
                             continue
-                        got = tag.get(fr.HashKey)
-                        if got is None:
+                        # match by class and values (a HashKey may depend on the encoding, which v2.3 changes)
+                        cands = [g for g in tag.values() if type(g) is type(fr)]
+                        if not cands:
                             bad = "%s lost" % fr.HashKey
                             break
-                        d = self.oracle.frame_diff(fr, got, expect=self.expected_v23(fr, None) if version == 3 else {},
-                                                   expect_fn=(lambda f: self.expected_v23(f, None)) if version == 3 else None)
-                        if d:
-                            bad = "%s: %s" % (fr.HashKey, d[:2])
+                        ds = [self.oracle.frame_diff(fr, g, expect=self.expected_v23(fr, None) if version == 3 else {},
+                                                     expect_fn=(lambda f: self.expected_v23(f, None)) if version == 3 else None)
+                              for g in cands]
+                        if all(ds):
+                            bad = "%s: %s" % (fr.HashKey, ds[0][:2])
                             break
                 if bad:
                     # is it the determine_bpi heuristic?
@@ -1200,7 +1234,8 @@ class Runner:
         self.negative_counts()
         self.determine_bpi_case()
         self.zero_tail_cases()
-        self.mixed_tag(ctx.budget(60, 1500))
+        self.nested_unsynch_case()
+        self.mixed_tag(ctx.budget(150, 1500))
         self.flush_model()
         ctx.extra["model_requests"] = ctx.traces_validated
 
